@@ -65,6 +65,11 @@ def mutants(args):
         i = args.index("--tier")
         tier = args[i + 1]
         del args[i:i + 2]
+    override = None
+    if "--props" in args:
+        i = args.index("--props")
+        override = args[i + 1].split(",")
+        del args[i:i + 2]
     paths = sorted(glob.glob(os.path.join(VERIF, "mutants", "*.diff")) +
                    glob.glob(os.path.join(VERIF, "seeded", "*", "patch.diff")))
     if args:
@@ -78,7 +83,7 @@ def mutants(args):
         # sanity: the unmutated scratch copy must be quiet for every property involved
         for path in paths:
             name = os.path.relpath(path, VERIF)
-            pids = prop_of(path)
+            pids = override or prop_of(path)
             t0 = time.time()
             r = sh(f"git -C {SCRATCH}/repo apply --whitespace=nowarn {path}")
             if r.returncode != 0:
